@@ -48,10 +48,29 @@ def make_grid(kind, points, addressing):
     return cls(np.array(points, dtype=float), [list(a) for a in addressing])
 
 
-def impl_cell_quality(kind, points, addressing, ci=0):
+def living_grid(kind, warm, points, addressing):
+    """a grid that was created and evaluated on the positions `warm` and whose points were then moved, one by one through
+    GridBase.update as the optimizer does, to `points`: quality is a function of where the points are now"""
+    g = make_grid(kind, warm, addressing)
+    try:
+        float(g.quality)
+        for c in g.cells:
+            float(c.quality)
+    except Exception:  # noqa: BLE001
+        pass
+    P = np.asarray(points, dtype=float)
+    for i in range(len(P)):
+        try:
+            g.update(i, P[i])
+        except Exception:  # noqa: BLE001  (an intermediate configuration may be degenerate)
+            g.points[i] = P[i]
+    return g
+
+
+def impl_cell_quality(kind, points, addressing, ci=0, warm=None):
     """('ok', value) or ('error', class name)"""
     try:
-        g = make_grid(kind, points, addressing)
+        g = make_grid(kind, points, addressing) if warm is None else living_grid(kind, warm, points, addressing)
         v = float(g.cells[ci].quality)
     except Exception as e:  # the library turns numpy warnings into ValueError("Degenerate Cell")
         return ("error", type(e).__name__)
@@ -60,9 +79,9 @@ def impl_cell_quality(kind, points, addressing, ci=0):
     return ("ok", v)
 
 
-def impl_grid_quality(kind, points, addressing):
+def impl_grid_quality(kind, points, addressing, warm=None):
     try:
-        g = make_grid(kind, points, addressing)
+        g = make_grid(kind, points, addressing) if warm is None else living_grid(kind, warm, points, addressing)
         v = float(g.quality)
     except Exception as e:
         return ("error", type(e).__name__)
@@ -522,17 +541,21 @@ def oracle_invariance(kind, T, points, addressing, rng, n_rigid=2, n_scale=2, re
     gt = sum(tols)
 
     def compare(what, P2, addr2, extra):
-        for ci in range(len(addressing)):
-            r = impl_cell_quality(kind, P2, addr2, ci)
-            if not same_outcome(base[ci], r, tols[ci]):
-                fails.append(dict(kind=what, cell=kind, observe="cell", points=P.tolist(), addressing=addressing,
-                                  cell_index=ci, before=base[ci], after=r, tol=tols[ci], **extra))
-                return
-        if grid:
-            r = impl_grid_quality(kind, P2, addr2)
-            if not same_outcome(gbase, r, gt):
-                fails.append(dict(kind=what, cell=kind, observe="grid", points=P.tolist(), addressing=addressing,
-                                  before=gbase, after=r, tol=gt, **extra))
+        # a fresh grid on the moved points, and the LIVING grid (created and evaluated at P) moved there
+        for warm in (None, P):
+            ex = dict(extra, living=warm is not None)
+            for ci in range(len(addressing)):
+                r = impl_cell_quality(kind, P2, addr2, ci, warm=warm)
+                if not same_outcome(base[ci], r, tols[ci]):
+                    fails.append(dict(kind=what, cell=kind, observe="cell", points=P.tolist(), addressing=addressing,
+                                      cell_index=ci, before=base[ci], after=r, tol=tols[ci], **ex))
+                    return
+            if grid:
+                r = impl_grid_quality(kind, P2, addr2, warm=warm)
+                if not same_outcome(gbase, r, gt):
+                    fails.append(dict(kind=what, cell=kind, observe="grid", points=P.tolist(), addressing=addressing,
+                                      before=gbase, after=r, tol=gt, **ex))
+                    return
 
     for _ in range(n_rigid):
         R = rand_rotation(rng)
@@ -842,11 +865,12 @@ class C14(Prop):
             P2 = P * obj["s"]
         elif kind == "renumber":
             A2[ci] = renumber(A[ci], obj["perm"])
+        warm = P if obj.get("living") else None   # the living grid created at P and moved to P2, or a fresh one at P2
         if obj.get("observe") == "grid":
-            a, b = impl_grid_quality(cell, P, A), impl_grid_quality(cell, P2, A2)
+            a, b = impl_grid_quality(cell, P, A), impl_grid_quality(cell, P2, A2, warm=warm)
         else:
-            a, b = impl_cell_quality(cell, P, A, ci), impl_cell_quality(cell, P2, A2, ci)
-        print("implementation: before", a, "after", b)
+            a, b = impl_cell_quality(cell, P, A, ci), impl_cell_quality(cell, P2, A2, ci, warm=warm)
+        print("implementation: before", a, "after", b, "(living grid moved)" if warm is not None else "(fresh grid)")
         print("oracle:", "ok" if same_outcome(a, b, obj.get("tol", 1e-9)) else "FAIL (%s changes the value)" % kind)
         return 0
 
